@@ -12,7 +12,7 @@ EXPLANATION = (
     'both failure edges returning Err; F2 trailer writer/reader agreement (same hash function, same width, same endianness, reader '
     'hashes exactly the bytes before the trailer, writer appends after serialisation finished); F3 the generic request decoder obtains '
     'its content only from that doorway and maps its error to an invalid-payload status, and no handler runs on a refused frame; '
-    'F4 status transport routing (handler Err -> serialised status + non-OK code -> client Err of the decoded status). '
+    'F5 every chunk read from the HTTP body is appended to the buffer that is decoded; F4 status transport routing (handler Err -> serialised status + non-OK code -> client Err of the decoded status). '
     'NOT decided: equality of observed and sent values (rkyv round trip), CRC-32 error-detection strength, hyper framing.')
 ASSUMPTIONS = ['rkyv/bytecheck validation is sound where used', 'CRC-32 detects all single-bit errors (property of the code, not checked)']
 
@@ -282,6 +282,44 @@ def check_F4(ctx, facts, cfg):
         break
 
 
+def check_F5(ctx, facts, cfg):
+    """body collection: every chunk read from the HTTP body is appended to the buffer that is decoded"""
+    bs = [b for b in facts.bodies.values() if b.crate == 'datacake_rpc' and b.kind == 'coroutine' and b.name.startswith(R_ + 'utils::to_aligned')]
+    if not bs:
+        ctx.bad('C12.F5', cfg + '|to_aligned', '', 'utils::to_aligned not found (fail closed)')
+        return
+    body = bs[0]
+    flow = Flow(body)
+    calls = list(body.calls())
+    datas = [(b, t) for b, t in calls if cname(t) and (cname(t).endswith('HttpBody::data') or cname(t) == 'http_body::Body::data')]
+    exts = [(b, t) for b, t in calls if cname(t) and cname(t).endswith('AlignedVec::extend_from_slice')]
+    oks = ok_return_blocks(body)
+    ctx.floor('C12.F5', cfg + ' chunk reads', len(datas), 3)
+    for i, (db, dt) in enumerate(datas):
+        fw = flow.forward([dt['dest']['l']], stop=[0])
+        # the chunk payload: Continue payload of the `?` applied to the Some payload
+        payload = set()
+        starts = []
+        for b, t in calls:
+            if cname(t) == 'core::ops::try_trait::Try::branch' and op_local(t['args'][0]) in fw and body.dominates(db, b):
+                re_ = ResultEdges(body, flow, b)
+                for b2, j2, s2 in body.assigns():
+                    if s2['rv']['k'] == 'use':
+                        pl = op_place(s2['rv']['op'])
+                        if pl and pl['l'] == t['dest']['l'] and any(isinstance(e, dict) and e.get('n') == 'Continue' for e in pl['p']):
+                            payload |= flow.forward([s2['lhs']['l']], stop=[0])
+                            starts.append(b2)
+        E = [eb for eb, et in exts if op_local(et['args'][1]) in payload]
+        good = bool(starts) and bool(E) and body.must_pass(starts, E, [o for o in oks if any(o in body.reachable_from([s]) for s in starts)])
+        ctx.ob('C12.F5', '%s|chunk#%d-appended' % (cfg, i), good, site(body, dt['cs']),
+               'a chunk read here is appended to the buffer on every path to Ok' if good else
+               'a chunk read here can be left out of the buffer that is decoded (or is never appended): the handler / client observes a value '
+               'different from the one sent, or a valid frame is refused')
+
+
+R_ = 'datacake_rpc::'
+
+
 def check(ctx):
     for cfg in CONFIGS:
         facts = ctx.facts(cfg)
@@ -289,6 +327,7 @@ def check(ctx):
         check_F2(ctx, facts, cfg)
         check_F3(ctx, facts, cfg)
         check_F4(ctx, facts, cfg)
+        check_F5(ctx, facts, cfg)
     if ctx.tier == 'thorough':
         facts = ctx.facts('release')
         check_F1(ctx, facts, 'release')
